@@ -13,7 +13,6 @@ import (
 	"os/exec"
 	"path/filepath"
 	"strings"
-	"sync"
 	"testing"
 
 	"golang.org/x/crypto/ssh"
@@ -28,11 +27,17 @@ import (
 func TestC19(t *testing.T) {
 	m := mon.New(t, "C19")
 	defer m.Done()
-	m.Rule("streams: (main) (password, salt, rounds, keyLen) with lengths drawn from boundary sets — password 1..100 plus SHA-512 padding edges {111,112,127,128,129,300}, salt 1..64 plus {107,108,124,200} (salt‖be32 crossing SHA-512 blocks), rounds 1..32 weighted to {1,2,3}, keyLen 32k+{-1,0,1} for k=1..7, uniform 1..200, and {1,1023,1024} — Key via the ssh.VerifBcryptPBKDF re-export compared byte for byte with an executable spec of OpenBSD bcrypt_pbkdf on π-derived Blowfish; (invalid) every documented invalid class (empty password, empty salt, salt > 2^20, rounds < 1, keyLen > 1024) alone and combined must return an error, the adjacent valid boundary (salt = 2^20, keyLen = 1024, rounds = 1) must not; (openssh→go) ssh-keygen -a R writes a bcrypt-protected key that ssh.ParseRawPrivateKeyWithPassphrase must open to the same public key and reject under a wrong passphrase, with the ref and Key agreeing on the 48 derived bytes for the file's salt/rounds; (go→openssh) ssh.MarshalPrivateKeyWithPassphrase output must be opened by ssh-keygen -y -P. distinct key = (pwlen class, saltlen class, rounds class, blocks, keyLen mod 32 class) resp. (direction, R, key type, passphrase class); non-trivial = an oracle comparison or an expected-error observation was made. Cross-cutting monitors on every call: (retention) the last 8 returned keys are kept as returned and re-verified after every later call into the package (dedicated sequences alternate larger/smaller keyLen incl. 1024, and an error-returning call); (concurrent) 4 goroutines × 3 calls with different arguments, every result verified after all returned; (inputs) password and salt carry 24 sentinel octets of spare capacity and must be bit-identical after the call")
+	m.Rule("streams: (main) (password, salt, rounds, keyLen) with lengths drawn from boundary sets — password 1..100 plus SHA-512 padding edges {111,112,127,128,129,300}, salt 1..64 plus {107,108,124,200} (salt‖be32 crossing SHA-512 blocks), rounds 1..32 weighted to {1,2,3}, keyLen 32k+{-1,0,1} for k=1..7, uniform 1..200, and {1,1023,1024} — Key via the ssh.VerifBcryptPBKDF re-export compared byte for byte with an executable spec of OpenBSD bcrypt_pbkdf on π-derived Blowfish; (invalid) every documented invalid class (empty password, empty salt, salt > 2^20, rounds < 1, keyLen > 1024) alone and combined must return an error, the adjacent valid boundary (salt = 2^20, keyLen = 1024, rounds = 1) must not; (openssh→go) ssh-keygen -a R writes a bcrypt-protected key that ssh.ParseRawPrivateKeyWithPassphrase must open to the same public key and reject under a wrong passphrase, with the ref and Key agreeing on the 48 derived bytes for the file's salt/rounds; (go→openssh) ssh.MarshalPrivateKeyWithPassphrase output must be opened by ssh-keygen -y -P. distinct key = (pwlen class, saltlen class, rounds class, blocks, keyLen mod 32 class) resp. (direction, R, key type, passphrase class); non-trivial = an oracle comparison or an expected-error observation was made. Cross-cutting monitors on every call: (retention) the last 8 returned keys are kept as returned and re-verified after every later call into the package (dedicated sequences alternate larger/smaller keyLen incl. 1024, and an error-returning call); (concurrent) 6 goroutines released from a barrier call Key twice each — three of them with the very same password/salt slices and arguments, three with their own — results (precomputed from the ref) judged after the join, one case in four under GOMAXPROCS(1) with yields between calls; the same stream alone is run in a -race build; (inputs) password and salt carry 24 sentinel octets of spare capacity and must be bit-identical after the call")
 	m.Assume("ref/bcryptpbkdf (own Blowfish from π via math/big, own eksblowfish and stride/fold logic transcribed from the OpenBSD description) is validated by Schneier's Blowfish vectors, the OpenBSD bcrypt_pbkdf vectors and by decrypting ssh-keygen output in its unit test; it uses the Go standard library SHA-512 and AES, which are trusted here; OpenSSH 9.2 ssh-keygen is the end-to-end witness")
 	m.Assume("keyLen = 0 is rejected by OpenBSD and accepted (empty key) by the package, which documents no such error: both outcomes are accepted; negative keyLen is outside the statement and only observed (counter), not judged")
 
 	c19Ret = newRetMon(m, 8)
+	if mon.RaceBuild {
+		// race-detector variant: only the shared-value concurrency stream
+		c19Concurrent(m)
+		concGates(m, c19ConcN(m))
+		return
+	}
 
 	// ---------- main: ref comparison ----------
 	pwSpecial := []int{1, 2, 55, 56, 63, 64, 65, 100, 111, 112, 127, 128, 129, 300}
@@ -200,7 +205,8 @@ func TestC19(t *testing.T) {
 	m.Gate("retention_reverifications", m.N(3000, 100000), "earlier returned keys re-verified after later calls (ring of 8)")
 	m.Gate("retention_next_call_larger", m.N(80, 800), "a later call with a larger keyLen")
 	m.Gate("retention_next_call_smaller", m.N(80, 800), "a later call with a smaller keyLen")
-	m.Gate("concurrent_calls", m.N(288, 2880), "calls made from 4 concurrent goroutines, verified after all returned")
+	m.Gate("concurrent_calls", m.N(288, 2880), "calls made from 6 concurrent goroutines, verified after all returned")
+	concGates(m, c19ConcN(m))
 	m.Gate("input_immutability_checks", m.N(1500, 40000), "password/salt (with sentinel-filled spare capacity) unchanged after the call")
 	m.Gate("openssh_to_go_opened", m.N(10, 40), "ssh-keygen written keys opened by ParseRawPrivateKeyWithPassphrase")
 	m.Gate("go_to_openssh_opened", m.N(6, 30), "MarshalPrivateKeyWithPassphrase output opened by ssh-keygen")
@@ -330,72 +336,6 @@ func c19Retention(m *mon.M) {
 		ssh.VerifBcryptPBKDF(nil, []byte("s"), 1, 32)
 		c19Ret.verify("Key(empty password)")
 		m.Count("retention_sequences", 1)
-	})
-}
-
-// c19Concurrent: 4 goroutines × 3 calls with different arguments; each result
-// is verified only after all goroutines have returned (Key is a pure function
-// with no documented goroutine restrictions).
-func c19Concurrent(m *mon.M) {
-	m.Cases("concurrent", m.N(24, 240), func(i int64, r *rand.Rand) {
-		type call struct {
-			pw, salt   *guarded
-			rounds, kl int
-			got        []byte
-			err        error
-			pv         any
-		}
-		const G, C = 4, 3
-		var calls [G][C]*call
-		for g := 0; g < G; g++ {
-			for c := 0; c < C; c++ {
-				calls[g][c] = &call{pw: guard(mon.Bytes(r, 1+r.IntN(40))), salt: guard(mon.Bytes(r, 1+r.IntN(32))),
-					rounds: 1 + r.IntN(2), kl: mon.Pick(r, []int{1, 16, 32, 33, 48, 64, 65, 96})}
-			}
-		}
-		var wg sync.WaitGroup
-		for g := 0; g < G; g++ {
-			wg.Add(1)
-			go func(g int) {
-				defer wg.Done()
-				for c := 0; c < C; c++ {
-					x := calls[g][c]
-					x.pv, _ = mon.Panics(func() { x.got, x.err = ssh.VerifBcryptPBKDF(x.pw.b(), x.salt.b(), x.rounds, x.kl) })
-				}
-			}(g)
-		}
-		wg.Wait()
-		c19Ret.verify("concurrent Key calls")
-		for g := 0; g < G; g++ {
-			for c := 0; c < C; c++ {
-				x := calls[g][c]
-				m.Eval()
-				m.Count("concurrent_calls", 1)
-				wit := map[string]any{"goroutine": g, "call": c, "pw": mon.FullHex(x.pw.snap[:x.pw.n]), "salt": mon.FullHex(x.salt.snap[:x.salt.n]), "rounds": x.rounds, "keyLen": x.kl}
-				checkInputs(m, "Key-concurrent", wit, map[string]*guarded{"password": x.pw, "salt": x.salt})
-				if x.pv != nil {
-					wit["panic"] = fmt.Sprint(x.pv)
-					m.Violation("panic:concurrent-Key", wit)
-					continue
-				}
-				if x.err != nil {
-					wit["err"] = x.err.Error()
-					m.Violation("valid-args-rejected:concurrent", wit)
-					continue
-				}
-				want, rerr := ref.Key(x.pw.snap[:x.pw.n], x.salt.snap[:x.salt.n], x.rounds, x.kl)
-				if rerr != nil {
-					m.Inconclusive("ref rejects a valid argument set")
-					continue
-				}
-				m.Count("ref_comparisons", 1)
-				if !bytes.Equal(x.got, want) {
-					wit["got"], wit["want"] = mon.Hex(x.got), mon.Hex(want)
-					m.Violation("wrong-key-after-concurrent-calls", wit)
-				}
-			}
-		}
-		m.Distinct(fmt.Sprintf("concurrent 4x3 case%%8=%d", i%8))
 	})
 }
 
